@@ -570,6 +570,9 @@ func propC18(j *Job) {
 				}
 				if j.Thorough() {
 					d = 1
+					if nw <= 2 && vi == 0 {
+						d = 2
+					}
 				}
 				j.Explore(fmt.Sprintf("BW/%s/w%d/U%v/ppi%d", mode.Name, nw, v.u, v.ppi), blockScenario(spec), Budget{D: d}, nil)
 				if j.capped() {
@@ -578,7 +581,7 @@ func propC18(j *Job) {
 				if nw == 1 && (vi == 0 || j.Thorough()) {
 					rs := *spec
 					rs.Rearm = true
-					j.Explore(fmt.Sprintf("BW/%s/w%d/U%v/ppi%d/rearm", mode.Name, nw, v.u, v.ppi), blockScenario(&rs), Budget{D: 1}, nil)
+					j.Explore(fmt.Sprintf("BW/%s/w%d/U%v/ppi%d/rearm", mode.Name, nw, v.u, v.ppi), blockScenario(&rs), Budget{D: map[bool]int{false: 1, true: 2}[j.Thorough()]}, nil)
 					if j.capped() {
 						return
 					}
